@@ -312,6 +312,9 @@ where
             .to_u64()
             .unwrap()
             .max(mindepth)
+            // A target time shorter than one step must still integrate one step,
+            // otherwise the draw has no acceptance statistic at all.
+            .max(1)
             .min(options.maxdepth);
 
         (mindepth, maxdepth)
